@@ -11,6 +11,7 @@ open Drand.Driver.HashD
 open Drand.Driver.RouteD
 open Drand.Driver.SecrecyD
 open Drand.Driver.StoreD
+open Drand.Driver.SyncD
 open Drand.Driver.TimeD
 
 def isWs (c : Char) : Bool := c == ' ' || c == '\t' || c == '\n' || c == '\r'
